@@ -7,6 +7,12 @@ L : model problems (Poisson, reaction-diffusion, linear elasticity) whose exact 
     scaled) DOF locations and compares with the recorded solution vector (SolutionIsInterpolant, TolSolve).
     basis.project of a member of the space onto the whole mesh / a sub-domain / a boundary part must return the
     member (ProjectionIsIdentity), curved second-order meshes included.
+    Further classes: the system assembled ONCE and constrained/solved for several different Dirichlet/Neumann
+    splits through enforce / condense / penalize with the Dirichlet set in every accepted form (every solve must be
+    exact); meshes reached through operation histories (refined(marked) ..., harness/meshops.py) with solutions of
+    the element's degree (>= 3 for several DOFs per edge); strongly graded tensor grids (cell measures spanning
+    > 16 decades): degree-one patch tests with an exact fixed-point oracle at the dyadic DOF locations and
+    projection identities, relative to the O(1) solution.
 There is no model-checking configuration: the oracle is a theorem (Galerkin exactness / uniqueness of the
 discrete solution), not something TLC establishes; TLC evaluates the exact polynomial and decides the law.
 Python constructs the problem data from P (exact integer polynomial calculus = input construction), drives the
@@ -592,7 +598,10 @@ def run(ctx):
         'Q1 / Hex1 cells with degree-one solutions; prisms with Dirichlet data on the whole boundary (FacetBasis '
         'is not implemented for prisms)',
         'sub-domain projection uses the basis restricted to the sub-domain (CellBasis.with_elements)',
-        'meshes have <= ~250 DOFs and integer coordinates <= 9',
+        'meshes have <= ~350 DOFs; integer coordinates <= 9, dyadic ones on operation histories and graded grids',
+        'strongly graded grids: essential data on the whole boundary for the patch test (with natural data on layers '
+        '2^-29 thin the round-off of the solve reaches 1e-8), projections for families whose DOFs are point values',
+        'penalize() is driven with its default epsilon: observed error 8.5e-11 relative (tolerance 1.5e-8)',
         'TLC 1.8.0 and the CommunityModules Json module are trusted'],
         exhaustive=False)
 
